@@ -27,10 +27,10 @@ type zzState struct {
 
 type zzStateOpts struct {
 	maxPool, maxBatches, maxPerBatch int
-	zeroFees                          bool // batch transfers carry no fee/commission (no distribution on execution)
-	chains                            []types.ChainID
-	concreteIds                       bool
-	symDecimals                       bool
+	zeroFees                         bool // batch transfers carry no fee/commission (no distribution on execution)
+	chains                           []types.ChainID
+	concreteIds                      bool
+	symDecimals                      bool
 }
 
 func zzSteNamed(n string, chain types.ChainID, tok string, tid uint64, zeroFees bool) *types.SendToExternal {
